@@ -51,6 +51,7 @@ def layout(rng, k=None):
         inputs.append({"src": s, "chain": chain})
     return {"k": k, "nsrc": nsrc, "phases": phases, "neg": neg, "inputs": inputs,
             "list_rs": rng.random() < 0.6, "rails": rng.random() < 0.5, "extra": [rng.random() < 0.5 for _ in range(k)],
+            "ig_table": rng.choice([None, None, "1d", "2d", "2d"]),
             "seed": rng.randrange(1 << 30)}
 
 
@@ -125,7 +126,15 @@ def realise(lay, pattern):
     k = lay["k"]
     rs = [G.sig(rng.uniform(0.01, 0.5)) for _ in range(k + rng.choice([0, 0, 1]))] if lay["list_rs"] else G.sig(
         rng.uniform(0.0, 0.3))
-    margs = {"rs": rs, "ig": G.sig(rng.uniform(0, 1e-4)), "iis": 4e-6, "rt": 20.0}
+    igc = G.sig(rng.uniform(0, 1e-4))
+    if lay.get("ig_table"):
+        # tabulated ground current that varies strongly with the (selected) input voltage
+        vmax = max(abs(v) for v in volt.values()) or 5.0
+        vis = [G.sig(vmax * f) for f in (0.15, 0.5, 1.1)]
+        ios = [0.001, 0.05, 1.0]
+        igc = {"vi": vis if lay["ig_table"] == "2d" else [vis[1]], "io": ios,
+               "ig": [[G.sig(1e-5 * (1 + 9 * j) * (1 + i), 4) for i in range(3)] for j in range(3 if lay["ig_table"] == "2d" else 1)]}
+    margs = {"rs": rs, "ig": igc, "iis": 4e-6, "rt": 20.0}
     mux = _c("MUX", "PMux", margs, list(in_names))
     if phases and rng.random() < 0.3:
         mux["phase"] = [p for p in phases if rng.random() < 0.7] or ["ghost"]
